@@ -1302,6 +1302,7 @@ def conj(terms):
 def find_raising_guard(fn, spec, rename=None, want_loop_iter=None):
     """An `if` whose body always raises and whose firing condition (path condition AND own test, local temporaries
     inlined) is implied by ``spec`` (an NNF term).  Returns the If node or None."""
+    partial = []
     for s in walk_local(fn):
         if not isinstance(s, ast.If):
             continue
@@ -1323,6 +1324,14 @@ def find_raising_guard(fn, spec, rename=None, want_loop_iter=None):
                     firing = _rename_term(firing, rename)
                 if nnf_implies(spec, firing):
                     return s
+                if inl and _atoms(firing, set()) & _atoms(spec, set()):
+                    partial.append((s, firing))
+    # a compound condition may be rejected by several guards, one per alternative (`if a: raise` ... `if b: raise` for `a or b`): the rejections together
+    # must cover the specification
+    if len(partial) > 1:
+        union = ("or", frozenset(f for _, f in partial))
+        if nnf_implies(spec, union):
+            return partial[0][0]
     return None
 
 
@@ -1534,3 +1543,31 @@ def facts_at(stmt):
     for g in exit_guards_before(stmt):
         out += conjunct_exprs(g.test, False)
     return out
+
+
+def doc_index(node):
+    """position of the statement holding ``node`` in the document order of its (normalised) function body - use this, never line numbers, to order
+    statements: spliced-in helper bodies keep the line numbers of the helper's source"""
+    st = node if isinstance(node, ast.stmt) else enclosing_stmt(node)
+    fn = enclosing_function(st) if st is not None else None
+    if fn is None:
+        return getattr(node, "lineno", 0)
+    cache = getattr(fn, "_doc_index", None)
+    if cache is None or id(st) not in cache:
+        cache = {}
+
+        def rec(n):
+            if isinstance(n, ast.stmt):
+                cache[id(n)] = len(cache)
+            for ch in ast.iter_child_nodes(n):
+                if isinstance(ch, FUNC_TYPES) or isinstance(ch, ast.ClassDef):
+                    cache[id(ch)] = len(cache)
+                    continue
+                rec(ch)
+        for s_ in fn.body:
+            rec(s_)
+        try:
+            fn._doc_index = cache
+        except Exception:
+            pass
+    return cache.get(id(st), 0)
